@@ -208,7 +208,26 @@ def events_in(lon, lat, a, n):
     return CNT(z3.Lambda([e], in_tile(to_real(lon.f((e,))), to_real(lat.f((e,))), a)), to_z3(n))
 
 
+def _directed_quadtree_catalogs():
+    """concrete catalogs (conventions of rt/oracles_io.quadtree_grid): events exactly on tile edges and corners (a north / east
+    edge belongs to the neighbour), tiles holding exactly `threshold` events (not refined) and one more (refined)"""
+    edge_lat = 66.51326044311186        # common edge of zoom-2 tiles
+    fam = []
+    for thr, zoom in ((1, 2), (2, 3), (3, 3)):
+        on_edges = [[10.0, 0.0], [20.0, 0.0], [-10.0, 0.0], [0.0, 10.0], [0.0, -10.0], [0.0, 0.0], [-90.0, edge_lat], [90.0, edge_lat]]
+        fam.append(('quadtree_grid', dict(kind='catalog', zoom=zoom, threshold=thr, events=on_edges, n_probes=40, corner_cells=40)))
+        fam.append(('quadtree_grid', dict(kind='catalog', zoom=zoom, threshold=thr, events=[[45.0, 30.0]] * thr + [[-45.0, -30.0]] * (thr + 1),
+                                          n_probes=40, corner_cells=40)))
+    return fam
+
+
+def _directed_quadtree_grids():
+    return [('quadtree_grid', dict(kind='single', zoom=z, probe_seed=z, n_probes=60, corner_cells=64)) for z in (1, 2, 3)] + \
+        [('quadtree_grid', dict(kind='quadkeys', quadkeys=['0', '10', '11', '12', '13', '2', '3'], n_probes=60, corner_cells=40))]
+
+
 class _CreateTile:
+    directed = staticmethod(_directed_quadtree_catalogs)
     qualname = FT
     recursive = True
     properties = ('C17',)
@@ -310,6 +329,7 @@ contract(_CreateTile)
 # ---------------------------------------------------------------------------------------------------
 @contract
 class FindLocation:
+    directed = staticmethod(_directed_quadtree_grids)
     qualname = 'csep.core.regions.QuadtreeGrid2D._find_location'
     case = 'bounds array of arbitrary length'
     properties = ('C17', 'C03')
